@@ -167,6 +167,12 @@ func (e *evalEnv) eval1(t *Term) string {
 		}
 		i, _ := new(big.Int).SetString(s, 10)
 		return i.String()
+	case "str.from_code":
+		i := e.integer(t.Args[0])
+		if !i.IsInt64() || i.Int64() < 0 || i.Int64() > 255 {
+			return "s:"
+		}
+		return "s:" + string([]byte{byte(i.Int64())})
 	case "str.to_code":
 		s := e.str(t.Args[0])
 		if len(s) != 1 {
